@@ -103,6 +103,15 @@ func c09RootPow(veloc, tempsum float64) float64 {
 	return math.Pow((0.081476 + math.Exp(-veloc*(tempsum+Tsumbase))), 1.8)
 }
 
+// radiaOracles lists the recorded transcendental values of one radia() call in the order RadiaModel expects them
+func radiaOracles(r *radiaRec) map[string]string {
+	out := map[string]string{}
+	for _, k := range []string{"p2", "ktv", "ktc", "kto", "cossc", "sslae", "logx", "logy", "elai", "ec", "eo", "xarg", "yarg", "ecarg", "eoarg"} {
+		out[k] = hx(r.O[k])
+	}
+	return out
+}
+
 func isZRK(c hermes.CropType) bool { return c == hermes.ZR || c == hermes.K }
 
 // c09Maxup mirrors crop.go:663-681 (oracle value)
@@ -482,7 +491,7 @@ func c09Line(work, line string, yml bool, tag string, lineNo int, r *rng, every,
 			// ---- radia(): shadow copy with recorder vs the real kernel (hook VerifRadia), on the state PhytoOut hands it ----
 			var rrec radiaRec
 			radiaOK := true
-			var rGPHOT, rMAINT float64
+			var rGPHOT, rMAINT, radiaLAI, radiaDLE0 float64
 			if grown {
 				gs, gr := pre, pre
 				gs.INTWICK, gr.INTWICK = g.INTWICK, g.INTWICK // the stage index after today's advance (DRYSWELL lookup)
@@ -490,6 +499,8 @@ func c09Line(work, line string, yml bool, tag string, lineNo int, r *rng, every,
 					gs.LAI, gr.LAI = 0.001, 0.001
 				}
 				ls, lr := lPre, lPre
+				radiaLAI = gs.LAI
+				_, radiaDLE0, _, _, _, _, _ = hermes.CalculateDayLenght(gs.TAG.Num, gs.LAT)
 				a1, a2, a3, a4 := radiaShadow(&gs, &ls, int(reflect.ValueOf(lPre).FieldByName("temptyp").Int()), &rrec)
 				b1, b2, b3, b4 := hermes.VerifRadia(&gr, &lr)
 				rGPHOT, rMAINT = b3, b4
@@ -705,6 +716,10 @@ func c09Line(work, line string, yml bool, tag string, lineNo int, r *rng, every,
 				"a_ok": rrec.Reached, "a_rad": hx(rrec.RAD), "a_sund": hx(rrec.SUND), "a_dle": hx(rrec.DLE), "a_dgac": hx(rrec.DGAC), "a_dgao": hx(rrec.DGAO),
 				"a_drc": hx(rrec.DRC), "a_trrel": hx(rrec.TRREL), "a_vswell": hx(rrec.VSWELL), "a_mpot": hx(rrec.MAINTPOT), "a_cold": rrec.COLD,
 				"a_o_gphot": hx(rGPHOT), "a_o_maint": hx(rMAINT), "a_dl": hx(rrec.DL),
+				// head of radia() (RadiaModel.rd_light): inputs, oracle values by call site (0 where a site was not reached), recorded results
+				"h_temp": hx(temp), "h_mintmp": hx(pre.MINTMP), "h_maxamax": hx(pre.MAXAMAX), "h_co2": hx(pre.CO2KONZ), "h_meth": pre.CO2METH,
+				"h_temptyp": int(reflect.ValueOf(lPre).FieldByName("temptyp").Int()), "h_lai": hx(radiaLAI), "h_rdn": hx(rrec.RDN),
+				"h_dle0": hx(radiaDLE0), "h_o": radiaOracles(&rrec), "h_o_amax": hx(rrec.AMAX), "h_o_effe": hx(rrec.EFFE),
 				// reduk
 				"gehob": hx(pre.GEHOB), "gehmin": hx(g.GEHMIN), "ngefkt1": pre.NGEFKT == 1, "earg": hx(eArg), "e": hx(eVal), "reduk0": hx(pre.REDUK), "o_reduk": hx(g.REDUK),
 				// organs
